@@ -13,7 +13,12 @@
             [9; a; v]  send v (0 nil, 1 an error) on a's errCh        [10; a]  close a's errCh
    Observation  [na; nj] ++ per API actor [code; x; y] ++ per job [entered; returned; worker]
             code  1 at a gate, 2 blocked in select, 3 inside the WatchState callback with arguments (x, y),
-                  4 returned nil, 5 returned context.Canceled, 6 returned another error, 7 Enqueue returned (x, y)
+                  4 returned nil, 5 returned context.Canceled, 6 returned the error it was given (errCh value / callback
+                  error), 7 Enqueue returned (x, y); never produced by the model: 9 panicked, 11 returned
+                  context.DeadlineExceeded, 12 returned the cause of its context (hctx.ErrCause), 13 returned any other error.
+                  The contexts handed to WaitIdle / WatchState are plain, deadline-like or cancelled-with-a-cause in turn
+                  (harness/hctx, chosen from the number of context-taking calls so far); the code returns the literal
+                  context.Canceled for all of them, so the flavour is not part of the event
             worker (goroutine spawned for this job)  0 none, 1 at its gate, 8 returned, 10 + j inside the function of job j *)
 From Util Require Import Common.Base Common.ListLemmas Conc.Model.
 
@@ -128,7 +133,9 @@ Definition hstep (s : st) (e : list N) : option (st * list N) :=
    clause 2  no job function entered more than once
    clause 3  at a quiescent point with no job inside its function, every enqueued job was entered (exactly once)
    clause 4  limit = 1: the jobs entered so far are an initial segment of the enqueue order
-   clause 5  every (queued, running) returned by Enqueue or passed to the WatchState callback: queued > 0 -> running = limit (limit > 0)
+   clause 5  every (queued, running) returned by Enqueue or passed to the WatchState callback: queued > 0 -> there is a limit
+             (limit > 0) and running = limit.  "For every limit (including unlimited)": a queue without limit (maxConcurrency <= 0)
+             has no limit that running could equal, so it never reports queued > 0 (it starts every job at once)
    clause 6  WaitIdle returned nil -> every job enqueued before it was called has returned
    clause 7  at a quiescent point with every enqueued job returned, no WaitIdle is blocked *)
 Record mst := { mlim : Z;
@@ -164,10 +171,8 @@ Definition cl3 (al jl : list (N * N * N)) : bool :=
 Definition cl4 (lim : Z) (jl : list (N * N * N)) : bool :=
   if (lim =? 1)%Z then prefix_closed (map (fun p => N.leb 1 (t1 p)) jl) else true.
 Definition cl5 (lim : Z) (al : list (N * N * N)) : bool :=
-  if (0 <? lim)%Z
-  then forallb (fun p => if N.eqb (t1 p) 7 || N.eqb (t1 p) 3
-                         then (if N.ltb 0 (t2 p) then (Z.of_N (t3 p) =? lim)%Z else true) else true) al
-  else true.
+  forallb (fun p => if N.eqb (t1 p) 7 || N.eqb (t1 p) 3
+                    then (if N.ltb 0 (t2 p) then (0 <? lim)%Z && (Z.of_N (t3 p) =? lim)%Z else true) else true) al.
 Definition cl6 (ka : list ((N * nat) * (N * N * N))) (jl : list (N * N * N)) : bool :=
   forallb (fun kp : (N * nat) * (N * N * N) =>
              if N.eqb (fst (fst kp)) 2 && N.eqb (t1 (snd kp)) 4
